@@ -104,7 +104,7 @@ func runC10(c *Ctx) {
 		depth = 4
 	}
 	c.Exhaustive = true
-	c.Rule = fmt.Sprintf("all management-call histories of depth <= %d over a 24-call alphabet (p and g; single, batch, Ex, update, batch update, filtered removal, UpdateFilteredPolicies) plus SavePolicy/LoadPolicy, with the recording set-semantics adapter implementing every optional interface, under both auto-save settings, over a 9-call alphabet on a model with explicit priority as first column whose store is attached after construction (never loaded), and over an 11-call alphabet on a subject-priority model whose store is loaded out of hierarchy order (implementation only: live vs freshly loaded, rule list vs index); after every call the adapter contents and call log are compared with the Lean model and, after every successful call with auto-save on, a second real enforcer freshly loaded from the adapter must make the same decisions over the 16-request universe (checked on the implementation); the file/string adapter save/load round trip over loadable fields; non-trivial = a history with a call that changed the policy and one that was refused; distinct = whole history", depth)
+	c.Rule = fmt.Sprintf("all management-call histories of depth <= %d over a 24-call alphabet (p and g; single, batch, Ex, update, batch update, filtered removal, UpdateFilteredPolicies) plus SavePolicy/LoadPolicy, with the recording set-semantics adapter implementing every optional interface, under both auto-save settings, over a 9-call alphabet on a model with explicit priority as first column whose store is attached after construction (never loaded), and over an 11-call alphabet on a subject-priority model whose store is loaded out of hierarchy order (implementation only: live vs freshly loaded, rule list vs index); after every call the adapter contents and call log are compared with the Lean model and, after every successful call with auto-save on, a second real enforcer freshly loaded from the adapter must make the same decisions over the 16-request universe (checked on the implementation); the file/string adapter save/load round trip over loadable fields, also on a model with two policy and two role definitions; non-trivial = a history with a call that changed the policy and one that was refused; distinct = whole history", depth)
 	for _, autosave := range []bool{true, false} {
 		autosave := autosave
 		alpha := append(mgmtAlphabet(), EOp{Kind: "save"}, EOp{Kind: "load"})
@@ -308,6 +308,7 @@ func runC10(c *Ctx) {
 		enumerate(c, cfgS)
 	}
 	c10RoundTrip(c)
+	c10RoundTripMultiType(c)
 }
 
 func runC11(c *Ctx) {
@@ -536,7 +537,7 @@ func runC15(c *Ctx) {
 		depth = 3
 	}
 	c.Exhaustive = true
-	c.Rule = fmt.Sprintf("all management-call histories of depth <= %d (effective, no-op and failing calls; failing = the first adapter call of the last step is armed to fail in a second pass) x {Watcher, WatcherEx, UpdatableWatcher, WatcherEx+Updatable} x auto-notify on/off (and auto-save off for two watcher kinds: announcements do not depend on it; and for two kinds from a store that already holds a p and a g rule), two real enforcers sharing the recording in-memory adapter over a synchronous bus: the notification log (kind and arguments) is compared with the Lean model after every call, and on the implementation: exactly one notification per effective call, none for false/error results and Self* calls, and the peer, reloading on every notification, reaches the originator's decisions; a watcher whose notifications fail (twin enforcers: same notifications, memory and store, result (bool, error)); every rule-changing SyncedEnforcer method (Self* replays included) vs the Enforcer method it wraps on twin enforcers: same notifications, results and state; non-trivial = a history with an effective and a no-op call; distinct = (watcher kind, flags, history)", depth)
+	c.Rule = fmt.Sprintf("all management-call histories of depth <= %d (effective and no-op calls; failing calls: every call of the alphabet from a store holding three rules with its first adapter call armed to fail, every other failure worded like a real backend's error containing the words \"not implemented\") x {Watcher, WatcherEx, UpdatableWatcher, WatcherEx+Updatable} x auto-notify on/off (and auto-save off for two watcher kinds: announcements do not depend on it; and for two kinds from a store that already holds a p and a g rule), two real enforcers sharing the recording in-memory adapter over a synchronous bus: the notification log (kind and arguments) is compared with the Lean model after every call, and on the implementation: exactly one notification per effective call, none for false/error results and Self* calls, and the peer, reloading on every notification, reaches the originator's decisions; a watcher whose notifications fail (twin enforcers: same notifications, memory and store, result (bool, error)); every rule-changing SyncedEnforcer method (Self* replays included) vs the Enforcer method it wraps on twin enforcers: same notifications, results and state; non-trivial = a history with an effective and a no-op call; distinct = (watcher kind, flags, history)", depth)
 	type c15Variant struct {
 		wk               string
 		notify, autosave bool
@@ -674,6 +675,34 @@ func runC15(c *Ctx) {
 				}
 			}
 			enumerate(c, cfg)
+		}
+	}
+	// failing calls: the first adapter call of every management call is armed to fail (every other injected failure
+	// is worded like a real backend's and contains the words "not implemented"): the call reports the error and
+	// nothing is announced; result and notification log are compared with the model
+	for _, wk := range []string{"plain", "ex", "upd", "exupd"} {
+		for _, op := range mgmtAlphabet() {
+			s := StartCase(c, rbacSpec(false, false), CaseOpts{Adapter: true, Watcher: wk,
+				ALines: []memLineT{{PType: "p", Rule: []string{"alice", "data1", "read"}}, {PType: "p", Rule: []string{"admin", "data2", "write"}}, {PType: "g", Rule: []string{"alice", "admin"}}}})
+			if s == nil {
+				continue
+			}
+			s.Do(c, EOp{Kind: "arm", What: "adapter", K: 1})
+			obs := s.Do(c, op)
+			s.Do(c, EOp{Kind: "obs", Args: []string{"notif"}})
+			s.Do(c, EOp{Kind: "obs", Args: []string{"adapter"}})
+			c.Evals++
+			c.Count("adapter_fault_cases", 1)
+			hit := s.A.FailAt == 0
+			if hit && !strings.HasPrefix(obs, "err") {
+				c.Direct("an adapter failure was not reported by the call", fmt.Sprintf("watcher=%s call: %s -> %s", wk, op.Line(), obs))
+			}
+			if hit && len(s.W.Log) != 0 {
+				c.Direct("a call whose adapter call failed was announced to the watcher", fmt.Sprintf("watcher=%s call: %s -> %s announced %v", wk, op.Line(), obs, s.W.Log))
+			}
+			if hit {
+				c.Nontrivial("c15-adapter-fault|" + wk + "|" + op.Line())
+			}
 		}
 	}
 	c15FailingWatcher(c)
